@@ -237,14 +237,32 @@ def r09_2(chk, sd, dx):
                bool(odef) and "kwargs.get('origin', numpy.mean(p_i, axis=0" in odef[0].key(), fingerprint="default-origin", found=str(odef[0])[:120] if odef else None)
         gev = site["hev"] if site["helper"] else ev
         gd = [e for e in gev.events if e.kind == "store" and (e.target.key().startswith("$g[") or e.target.key().startswith("<g@"))]
-        okg = len(gd) == 3 and all(any(e.target.key().endswith(f"[(slice None None None), {k}]") and e.value.key() == f"sht.grid_cartesian[{k}].flatten()" for e in gd) for k in range(3))
+        from .generic import flat_of, stack_columns
+        okg = len(gd) == 3 and all(any(e.target.key().endswith(f"[(slice None None None), {k}]") and flat_of(e.value).key() == f"sht.grid_cartesian[{k}]" for e in gd) for k in range(3))
+        if not gd:
+            # the direction array built in one go: column_stack / c_ / stack(axis=1) of the flattened components
+            gdefs = [v for k, v in gev.defs.items() if k[0] == "local" and k[1] == "g"]
+            cols = stack_columns(gdefs[0]) if gdefs else None
+            okg = bool(cols) and len(cols) == 3 and all(flat_of(c).key() == f"sht.grid_cartesian[{k}]" for k, c in enumerate(cols))
         chk.ob("R09.2", SD, q, "grid directions are the x, y, z components of the transform's Cartesian grid, in order", okg,
                fingerprint="grid", found=[f"{e.target}={e.value}" for e in gd])
     q = "_compute_property_in_j_channel"
     ev = sd.ev(q)
     chk.saw(SD, q)
     xyz = [e for e in ev.events if e.kind == "assign" and e.name == "xyz"]
-    ok1 = bool(xyz) and "numpy.c_[" in xyz[0].value.key() and "r.flatten()" in xyz[0].value.key() and "sht.grid_cartesian" in xyz[0].value.key()
+    from .generic import flat_of, stack_columns
+    ok1 = False
+    if xyz:
+        # direction columns times the flattened radii as a column:  stack(x, y, z) * r[:, None]
+        v0 = xyz[0].value
+        for A in v0.atoms():
+            cols = stack_columns(P.atom(A))
+            if cols and len(cols) == 3 and all(flat_of(c).key() == f"sht.grid_cartesian[{k}]" for k, c in enumerate(cols)):
+                scale = v0 / P.atom(A)
+                sk = scale.key()
+                ok1 = sk in ("r.flatten()[(slice None None None), numpy.newaxis]", "r.ravel()[(slice None None None), numpy.newaxis]",
+                             "r.reshape(-1, 1)", "r.reshape((tuple (-1 1)))", "r.flatten()[(slice None None None), None]",
+                             "r.ravel()[(slice None None None), None]", "r.flatten().reshape(-1, 1)", "r.ravel().reshape(-1, 1)")
     ok2 = any(e.extra.get("aug") == "Add" and e.extra["delta"].key() == "origin" and any("origin" in c.key() and "None" in c.key() for c, p in e.guards) for e in xyz)
     chk.ob("R09.2", SD, q, "sample points are direction * r, shifted by the origin when one is given", ok1 and ok2,
            found=[str(e.value)[:100] for e in xyz])
